@@ -56,6 +56,24 @@ pub(crate) fn mask_string_literals(tokens: &str) -> String {
     masked
 }
 
+/// Byte position of `word` in `text` where it stands as a whole identifier: `min` is not found in
+/// `exclusive_min`, `email` not in `validate_email_domain`, `url` not in `url_pattern`
+fn find_word(text: &str, word: &str) -> Option<usize> {
+    let is_ident = |c: char| c.is_alphanumeric() || c == '_';
+    let mut from = 0;
+    while let Some(pos) = text[from..].find(word) {
+        let start = from + pos;
+        let end = start + word.len();
+        let before = text[..start].chars().next_back();
+        let after = text[end..].chars().next();
+        if !before.is_some_and(is_ident) && !after.is_some_and(is_ident) {
+            return Some(start);
+        }
+        from = end;
+    }
+    None
+}
+
 /// Text of a numeric literal in the form `str::parse` accepts: the token stream prints a negative
 /// literal as `- 10`, and Rust allows `_` separators and a type suffix (`1_000`, `2.5f64`, `10u32`)
 fn numeric_literal_text(value: &str) -> String {
@@ -106,11 +124,11 @@ impl ValidatorParser {
                     // Validator names are looked up outside string literals (messages)
                     let masked = mask_string_literals(&tokens_str);
 
-                    if masked.contains("email") {
+                    if find_word(&masked, "email").is_some() {
                         validator_attrs.email = true;
                     }
 
-                    if masked.contains("url") {
+                    if find_word(&masked, "url").is_some() {
                         validator_attrs.url = true;
                     }
 
@@ -138,7 +156,7 @@ impl ValidatorParser {
     fn parse_length_from_tokens(&self, tokens: &str) -> Option<LengthConstraint> {
         // Keywords and numbers are parsed from a copy with blanked-out string literals
         let masked = mask_string_literals(tokens);
-        if !masked.contains("length") {
+        if find_word(&masked, "length").is_none() {
             return None;
         }
 
@@ -149,7 +167,7 @@ impl ValidatorParser {
         };
 
         // Simple regex-like parsing for length(min = X, max = Y, message = "...")
-        if let Some(start) = masked.find("length") {
+        if let Some(start) = find_word(&masked, "length") {
             if let Some(paren_start) = masked[start..].find('(') {
                 let open = start + paren_start + 1;
                 if let Some(paren_end) = find_closing_paren(&masked[open..]) {
@@ -157,7 +175,7 @@ impl ValidatorParser {
                     let original_content = &tokens[open..open + paren_end];
 
                     // Parse min = value
-                    if let Some(min_pos) = content.find("min") {
+                    if let Some(min_pos) = find_word(content, "min") {
                         if let Some(eq_pos) = content[min_pos..].find('=') {
                             let after_eq = &content[min_pos + eq_pos + 1..];
                             if let Some(comma_pos) = after_eq.find(',') {
@@ -175,7 +193,7 @@ impl ValidatorParser {
                     }
 
                     // Parse max = value
-                    if let Some(max_pos) = content.find("max") {
+                    if let Some(max_pos) = find_word(content, "max") {
                         if let Some(eq_pos) = content[max_pos..].find('=') {
                             let after_eq = &content[max_pos + eq_pos + 1..];
                             if let Some(comma_pos) = after_eq.find(',') {
@@ -205,7 +223,7 @@ impl ValidatorParser {
     fn parse_range_from_tokens(&self, tokens: &str) -> Option<RangeConstraint> {
         // Keywords and numbers are parsed from a copy with blanked-out string literals
         let masked = mask_string_literals(tokens);
-        if !masked.contains("range") {
+        if find_word(&masked, "range").is_none() {
             return None;
         }
 
@@ -216,7 +234,7 @@ impl ValidatorParser {
         };
 
         // Simple regex-like parsing for range(min = X, max = Y, message = "...")
-        if let Some(start) = masked.find("range") {
+        if let Some(start) = find_word(&masked, "range") {
             if let Some(paren_start) = masked[start..].find('(') {
                 let open = start + paren_start + 1;
                 if let Some(paren_end) = find_closing_paren(&masked[open..]) {
@@ -224,7 +242,7 @@ impl ValidatorParser {
                     let original_content = &tokens[open..open + paren_end];
 
                     // Parse min = value
-                    if let Some(min_pos) = content.find("min") {
+                    if let Some(min_pos) = find_word(content, "min") {
                         if let Some(eq_pos) = content[min_pos..].find('=') {
                             let after_eq = &content[min_pos + eq_pos + 1..];
                             if let Some(comma_pos) = after_eq.find(',') {
@@ -242,7 +260,7 @@ impl ValidatorParser {
                     }
 
                     // Parse max = value
-                    if let Some(max_pos) = content.find("max") {
+                    if let Some(max_pos) = find_word(content, "max") {
                         if let Some(eq_pos) = content[max_pos..].find('=') {
                             let after_eq = &content[max_pos + eq_pos + 1..];
                             if let Some(comma_pos) = after_eq.find(',') {
@@ -271,7 +289,8 @@ impl ValidatorParser {
     /// Parse message parameter from validator content
     /// Handles both "message = \"text\"" and "message = 'text'" formats
     fn parse_message_from_content(&self, content: &str) -> Option<String> {
-        if let Some(msg_pos) = content.find("message") {
+        // the key is looked up outside string literals (code = "message_length" is no key)
+        if let Some(msg_pos) = find_word(&mask_string_literals(content), "message") {
             if let Some(eq_pos) = content[msg_pos..].find('=') {
                 let after_eq = &content[msg_pos + eq_pos + 1..].trim_start();
 
